@@ -3,6 +3,7 @@ package main
 import (
 	"encoding/json"
 	"fmt"
+	"github.com/GuanceCloud/platypus/pkg/parser"
 	"math/rand"
 	"runtime/debug"
 	"strings"
@@ -132,6 +133,12 @@ func runV2Direct(rc runCase) map[string]any {
 	s, err := engine.ParseV2(rc.Entry, src, fns)
 	if err != nil {
 		res["asts"] = map[string]any{}
+		// rejected by the check pass (the text parses): hand the tree over so that the model's
+		// check pass can be asked about it
+		if stmts, perr := parser.ParsePipeline(rc.Entry, src); perr == nil {
+			res["asts"] = map[string]any{hx(rc.Entry): newDumper().nodes(stmts)}
+			res["check_rejected"] = true
+		}
 		if pe, ok := err.(*errchain.PlError); ok {
 			res["loaderrs"] = map[string]any{hx(rc.Entry): dumpErr(pe)}
 		} else {
